@@ -1005,6 +1005,57 @@ def _append_fallthrough(body, stmt):
 
 # ---------------------------------------------------------------------------------------
 # 8 / 9  expression level
+def _byte_format(e):
+    """number of fields of a struct format consisting of unsigned bytes only ("BB", "<3B"), else None"""
+    if not (isinstance(e, ast.Constant) and isinstance(e.value, str)):
+        return None
+    import re as _re
+    f = e.value.strip()
+    if f[:1] in "@=<>!":
+        f = f[1:]
+    n = 0
+    for cnt, ch in _re.findall(r"(\d*)([A-Za-z?])", f):
+        if ch != "B":
+            return None
+        n += int(cnt) if cnt else 1
+    if _re.sub(r"\d*[A-Za-z?]|\s", "", f) or n == 0 or n > 16:
+        return None
+    return n
+
+
+def _struct_of(e):
+    """the format constant of struct.Struct(fmt)"""
+    if isinstance(e, ast.Call) and u(e.func) in ("struct.Struct", "Struct") and len(e.args) == 1 and not e.keywords:
+        return e.args[0]
+    return None
+
+
+def _struct_call(node):
+    f = node.func
+    fmt = args = None
+    kind = None
+    if isinstance(f, ast.Attribute) and _struct_of(f.value) is not None and f.attr in ("pack", "unpack_from", "unpack"):
+        fmt, args, kind = _struct_of(f.value), list(node.args), f.attr
+    elif u(f) in ("struct.pack", "struct.unpack_from", "struct.unpack", "struct.calcsize") and node.args:
+        fmt, args, kind = node.args[0], list(node.args[1:]), u(f).split(".")[1]
+    if fmt is None or node.keywords or any(isinstance(a, ast.Starred) for a in args):
+        return None
+    n = _byte_format(fmt)
+    if n is None:
+        return None
+    if kind == "calcsize" and not args:
+        return ast.Constant(n)
+    if kind == "pack" and len(args) == n:
+        return ast.Call(func=ast.Name(id="bytes", ctx=ast.Load()), args=[ast.List(elts=args, ctx=ast.Load())], keywords=[])
+    if kind in ("unpack_from", "unpack") and args and norm.is_reference(args[0]):
+        off = args[1] if kind == "unpack_from" and len(args) == 2 else (ast.Constant(0) if len(args) == 1 else None)
+        if off is None or not (isinstance(off, ast.Constant) and type(off.value) is int and off.value >= 0):
+            return None
+        # (unpack_from refuses a buffer that is too short with struct.error where indexing raises IndexError: the same inputs)
+        return ast.Tuple(elts=[ast.Subscript(value=copy.deepcopy(args[0]), slice=ast.Constant(off.value + i), ctx=ast.Load()) for i in range(n)], ctx=ast.Load())
+    return None
+
+
 def _callee_locals(stmts):
     """f = <pure expression>  ..  f(args)   with f read exactly once, as the callee of a later statement of the same block, and nothing
     in between rebinding what the expression reads:  the expression is called directly (`TABLE[k](args)`, a handler picked first)"""
@@ -1123,6 +1174,10 @@ class _ExprNorm(ast.NodeTransformer):
             if not (la.vararg or la.kwarg or la.kwonlyargs or la.defaults or la.posonlyargs) and len(la.args) == len(node.args) \
                     and all(isinstance(a, ast.Constant) or norm._attr_chain(a) is not None for a in node.args):
                 return norm._Subst({p_.arg: a for p_, a in zip(la.args, node.args)}).visit(copy.deepcopy(node.func.body))
+        # struct layouts made of single bytes: pack -> bytes([..]), unpack_from(buf, k) -> (buf[k], buf[k + 1], ..)
+        st = _struct_call(node)
+        if st is not None:
+            return ast.fix_missing_locations(ast.copy_location(self.visit(st), node))
         # (f if c else g)(args) -> f(args) if c else g(args)      (a callee picked by a condition; raise_(..) alternatives stay refusals)
         if isinstance(node.func, ast.IfExp) and all(norm.is_pure(a.value if isinstance(a, ast.Starred) else a) for a in node.args) \
                 and all(norm.is_pure(k.value) for k in node.keywords):
@@ -1286,6 +1341,13 @@ class _ExprNorm(ast.NodeTransformer):
                 return [(None, x)]
             kv = parts(node.left) + parts(node.right)
             return ast.copy_location(ast.Dict(keys=[k for k, _ in kv], values=[v for _, v in kv]), node)
+        return node
+
+    def visit_Attribute(self, node):
+        self.generic_visit(node)
+        # struct.Struct("BB").size -> 2
+        if node.attr == "size" and isinstance(node.ctx, ast.Load) and _struct_of(node.value) is not None and _byte_format(_struct_of(node.value)) is not None:
+            return ast.copy_location(ast.Constant(_byte_format(_struct_of(node.value))), node)
         return node
 
     def visit_Subscript(self, node):
@@ -1720,11 +1782,54 @@ class Canon:
             elif isinstance(v, ast.Dict) and 1 <= len(v.keys) <= 12 and all(k is not None and (isinstance(k, ast.Constant) or norm._attr_chain(k) is not None) for k in v.keys) \
                     and all(_table_entry(e) for e in v.values):
                 consts[name] = v            # .. keyed by constants / enum members
+            elif isinstance(v, ast.Call) and u(v.func) in ("struct.Struct", "Struct") and len(v.args) == 1 and isinstance(v.args[0], ast.Constant) and not v.keywords:
+                consts[name] = v            # a compiled struct layout: as good as its format string
+        # members of a private IntFlag / IntEnum class the tables do not know: the integers they are
+        members = {}
+        for cname, c in module.classes.items():
+            if cname.startswith("_") and f"class:{cname}" not in known and any(u(b_).split(".")[-1] in ("IntFlag", "IntEnum") for b_ in c.node.bases):
+                for k_, v_ in c.class_assigns.items():
+                    if isinstance(v_, ast.Constant) and type(v_.value) is int:
+                        members[(cname, k_)] = v_
+        if members:
+            class M(ast.NodeTransformer):
+                def visit_Attribute(self, node):
+                    if isinstance(node.value, ast.Name) and (node.value.id, node.attr) in members and isinstance(node.ctx, ast.Load):
+                        return ast.copy_location(copy.deepcopy(members[(node.value.id, node.attr)]), node)
+                    return self.generic_visit(node)
+            stmts = [M().visit(s_) for s_ in stmts]
         if not consts:
             return stmts
         local = norm._assigned_names(stmts) | {a.arg for a in fn.args.posonlyargs + fn.args.args + fn.args.kwonlyargs}
         consts = {k: v for k, v in consts.items() if k not in local}
         return [norm._Subst(dict(consts)).visit(s_) for s_ in stmts] if consts else stmts
+
+    def _fold_constant_lengths(self, stmts, module, fn):
+        """len(NAME) with NAME a module-level bytes / str literal (or a display without unpacking) that the function does not rebind"""
+        if not any(isinstance(n, ast.Call) and isinstance(n.func, ast.Name) and n.func.id == "len" for s_ in stmts for n in ast.walk(s_)):
+            return stmts
+        local = norm._assigned_names(stmts) | {a.arg for a in fn.args.posonlyargs + fn.args.args + fn.args.kwonlyargs}
+        stores = {}
+        for n in ast.walk(module.tree):
+            if isinstance(n, ast.Name) and isinstance(n.ctx, (ast.Store, ast.Del)):
+                stores[n.id] = stores.get(n.id, 0) + 1
+            elif isinstance(n, ast.Global):
+                for g in n.names:
+                    stores[g] = stores.get(g, 0) + 2
+
+        class L(ast.NodeTransformer):
+            def visit_Call(self, node):
+                self.generic_visit(node)
+                if isinstance(node.func, ast.Name) and node.func.id == "len" and len(node.args) == 1 and not node.keywords and isinstance(node.args[0], ast.Name):
+                    nm = node.args[0].id
+                    v = module.assigns.get(nm)
+                    if nm not in local and stores.get(nm, 0) == 1 and v is not None:
+                        if isinstance(v, ast.Constant) and isinstance(v.value, (bytes, str)):
+                            return ast.copy_location(ast.Constant(len(v.value)), node)
+                        if isinstance(v, (ast.Tuple, ast.List)) and not any(isinstance(e, ast.Starred) for e in v.elts) and isinstance(v, ast.Tuple):
+                            return ast.copy_location(ast.Constant(len(v.elts)), node)
+                return node
+        return [L().visit(s_) for s_ in stmts]
 
     def _final_attrs(self) -> set[str]:
         """attribute names stored (anywhere in the program) only inside __init__ / __post_init__ / __new__: a method call on
@@ -2237,6 +2342,7 @@ class Canon:
         if b2 is not b:
             b = inl.rec(lift_walrus(lift_ifexp(b2)), inl.depth, (fn.name,))
         b = self._inline_unknown_constants(b, module, fn)      # .. those read by the helpers that were just inlined
+        b = self._fold_constant_lengths(b, module, fn)
         b = norm.merge_display_building(b)
         b = self._project_helper_objects(b, module)
         b = lift_walrus(lift_ifexp(b))          # conditional expressions returned by inlined helpers
